@@ -24,7 +24,7 @@ Proof. apply pearson_r2_range. Qed.
 (* ---- the pinned tree ------------------------------------------------------------ *)
 
 Definition witness16 : lcase :=
-  mkl 0 [mkgv 0 0 1 [(0, 0); (0, 0)] []] [] [true; true] None true (Err 5) [].
+  mkl 0 [mkgv 0 0 1 [(0, 0); (0, 0)] []] [] [true; true] None true true true (Err 5) [].
 
 Lemma legacy_refuted :
   wf witness16 = true /\ legacy_ld witness16 = Err E_Attr /\ holds_ld witness16 = false
@@ -292,7 +292,7 @@ Lemma hap_dosage_ok gs loaded keep h :
   exists d, hap_dosage loaded keep h = Ok d.
 Proof.
   intros OK EXT. unfold hap_dosage. rewrite (hap_strands_ext loaded gs) by exact EXT.
-  unfold hap_ok in OK. apply andb_true_iff in OK. destruct OK as [_ OK].
+  unfold hap_ok in OK.
   destruct (hap_strands_ok gs keep (h_vars h) (map (fun _ => (true, true)) (filter (fun k : bool => k) keep)) OK) as [st E].
   rewrite E. cbn [bind]. eexists. reflexivity.
 Qed.
@@ -454,23 +454,23 @@ Proof.
 Qed.
 
 Lemma holds_ld_sound c rows td :
-  wf c = true -> l_obs c = Ok rows ->
+  wf c = true -> skipped c (l_target c) = false -> l_obs c = Ok rows ->
   dosage_of c (negb (target_is_hap c)) (l_target c) = Some td ->
   holds_ld c = true ->
   (forall r, In r rows -> exists d, dosage_of c (l_fg c) (fst r) = Some d /\ r_near_spec (snd r) (corr td d))
   /\ (forall id, In id (requested c) -> countZ id (map fst rows) = 1)
   /\ (target_is_hap c = true -> ~ In (l_target c) (map fst rows))
-  /\ (forall b r, In (b, Ok r) (l_sym c) ->
+  /\ (forall b r, In (b, Ok r) (l_sym c) -> skipped c b = false ->
         exists d, dosage_of c (l_fg c) b = Some d /\ r_near_spec r (corr d td) /\ r_near_spec r (corr td d)).
 Proof.
-  intros W O T. unfold holds_ld. rewrite W, O, T. cbn [negb].
+  intros W SK O T. unfold holds_ld. rewrite W, SK, O, T. cbn [negb].
   rewrite !andb_true_iff. intros [[[H1 H2] H3] H4]. rewrite forallb_forall in H1, H2, H4. split; [|split; [|split]].
   - intros r Hr. specialize (H1 r Hr). destruct (dosage_of c (l_fg c) (fst r)) as [d|]; [|discriminate].
     exists d. split; [reflexivity|apply r_near_sound; exact H1].
   - intros id Hid. apply Z.eqb_eq. apply H2. exact Hid.
   - intros TH K. rewrite TH in H3. cbn [andb] in H3. apply negb_true_iff in H3.
     apply memZ_In in K. congruence.
-  - intros b r Hb. specialize (H4 _ Hb). cbn [fst snd] in H4.
+  - intros b r Hb SKb. specialize (H4 _ Hb). cbn [fst snd] in H4. rewrite SKb in H4.
     destruct (dosage_of c (l_fg c) b) as [d|]; [|discriminate].
     exists d. split; [reflexivity|]. split; [|rewrite (corr_sym d td)]; apply r_near_sound; exact H4.
 Qed.
@@ -704,7 +704,7 @@ Qed.
    lists variant v twice *)
 Definition witness16_dup : lcase :=
   mkl 5 [mkgv 0 0 1 [(0, 1); (1, 1); (0, 0)] []; mkgv 1 0 1 [(0, 0); (1, 1); (0, 1)] []]
-      [HL (mkhap 5 [(0, 1)])] [true; true; true] (Some [1; 1]) true
+      [HL (mkhap 5 [(0, 1)])] [true; true; true] (Some [1; 1]) true true true
       (Ok [(1, Some 500); (1, Some 500)]) [].
 
 Lemma legacy_dup_refuted :
